@@ -543,7 +543,72 @@ func (ec *evalCtx) evalQuant(q *EQuant) Val {
 	env := map[string]Val{}
 	var binders []string
 	var guards []string
+	// Robust triggers: a trigger of the form s[k] (s a slice of scalars that
+	// does not depend on the bound variables, k a bound int variable) is
+	// re-parametrised over the absolute array index j = off(s)+k, so that the
+	// pattern (select (select E arr) j) contains no arithmetic and matches
+	// every access of that array whatever form its index has.
+	absPat := map[string]string{} // exprString(trigger) -> pattern term
+	absVar := map[string]bool{}
 	for _, v := range q.Vars {
+		if v.Type != "int" && v.Type != "nat" {
+			continue
+		}
+		for _, tr := range q.Trig {
+			for _, t := range tr {
+				ix, ok := t.(*EIndex)
+				if !ok {
+					// s[k].f on a slice of structs
+					if sel, isSel := t.(*ESel); isSel {
+						ix, ok = sel.X.(*EIndex)
+					}
+					if !ok {
+						continue
+					}
+				}
+				id, ok := ix.I.(*EIdent)
+				if !ok || id.Name != v.Name || absVar[v.Name] {
+					continue
+				}
+				if mentionsAny(ix.X, q.Vars) {
+					continue
+				}
+				var sv Val
+				okEval := func() (ok bool) {
+					defer func() {
+						if r := recover(); r != nil {
+							ok = false
+						}
+					}()
+					sv = ec.eval(ix.X)
+					return true
+				}()
+				if !okEval || sv.K != KSlice {
+					continue
+				}
+				isStructElem := kindOf(sliceElem(sv.Typ)) == KStruct
+				j := qsym(v.Name + "!abs")
+				absVar[v.Name] = true
+				k := "(- " + j + " (s-off " + sv.T + "))"
+				env[v.Name] = Val{K: KInt, T: k, Typ: types.Typ[types.Int]}
+				binders = append(binders, "("+j+" Int)")
+				if v.Type == "nat" {
+					guards = append(guards, sLe("0", k))
+				}
+				if isStructElem {
+					ec.vc.erefDecls()
+					absPat[exprString(t)] = sApp("erefid", "(s-arr "+sv.T+")", j)
+				} else {
+					comp := ec.vc.elemComp(sliceElem(sv.Typ))
+					absPat[exprString(t)] = sSel(sSel(ec.hget(comp), "(s-arr "+sv.T+")"), j)
+				}
+			}
+		}
+	}
+	for _, v := range q.Vars {
+		if absVar[v.Name] {
+			continue
+		}
 		val, sort, guard := ec.boundVar(v.Name, v.Type)
 		env[v.Name] = val
 		binders = append(binders, "("+qsym(v.Name)+" "+sort+")")
@@ -556,6 +621,10 @@ func (ec *evalCtx) evalQuant(q *EQuant) Val {
 	for _, tr := range q.Trig {
 		var ts []string
 		for _, t := range tr {
+			if p, ok := absPat[exprString(t)]; ok {
+				ts = append(ts, p)
+				continue
+			}
 			ts = append(ts, inner.eval(t).T)
 		}
 		pats += " :pattern (" + strings.Join(ts, " ") + ")"
@@ -571,6 +640,31 @@ func (ec *evalCtx) evalQuant(q *EQuant) Val {
 		body = "(! " + body + pats + ")"
 	}
 	return boolVal("(" + kw + " (" + strings.Join(binders, " ") + ") " + body + ")")
+}
+
+// mentionsAny: does expression e mention one of the bound variables?
+func mentionsAny(e Expr, vars []QVar) bool {
+	s := " " + exprString(e) + " "
+	for _, v := range vars {
+		for i := 0; i+len(v.Name) <= len(s); i++ {
+			if s[i:i+len(v.Name)] == v.Name {
+				before, after := byte(' '), byte(' ')
+				if i > 0 {
+					before = s[i-1]
+				}
+				if i+len(v.Name) < len(s) {
+					after = s[i+len(v.Name)]
+				}
+				isId := func(c byte) bool {
+					return c == '_' || (c >= '0' && c <= '9') || (c >= 'a' && c <= 'z') || (c >= 'A' && c <= 'Z')
+				}
+				if !isId(before) && !isId(after) {
+					return true
+				}
+			}
+		}
+	}
+	return false
 }
 
 func (ec *evalCtx) typeArg(e Expr) types.Type {
